@@ -302,6 +302,12 @@ impl World {
 
     /// Conforming peer side of the handshake. Returns the flags the library announced.
     pub async fn peer_handshake(&self, peer: &mut Peer, peer_flags: u64) -> Result<u64, String> {
+        self.peer_handshake_with(peer, peer_flags, &[]).await
+    }
+
+    /// As `peer_handshake`, but `after_ack` is written in the same segment as the challenge
+    /// acknowledgement (a peer may start sending distribution frames right behind it).
+    pub async fn peer_handshake_with(&self, peer: &mut Peer, peer_flags: u64, after_ack: &[u8]) -> Result<u64, String> {
         let mut stage = 0;
         let mut consumed = 0usize;
         let mut flags_lo = 0u32;
@@ -322,7 +328,9 @@ impl World {
                     (1, Ok(HsMsg::Complement { flags_hi: fh, .. })) => { flags_hi = fh; stage = 2; }
                     (2, Ok(HsMsg::Reply { challenge: theirs, digest })) => {
                         if digest != dist_digest(COOKIE, challenge) { return Err("library sent a wrong digest".into()); }
-                        peer.send(&vcore::proto::frame(&hs_ack(&dist_digest(COOKIE, theirs)), 2));
+                        let mut ack = vcore::proto::frame(&hs_ack(&dist_digest(COOKIE, theirs)), 2);
+                        ack.extend_from_slice(after_ack);
+                        peer.send(&ack);
                         peer.dist_off = consumed;
                         return Ok(((flags_hi as u64) << 32) | flags_lo as u64);
                     }
